@@ -144,6 +144,9 @@ func TestVerifC08(t *testing.T) {
 		n = r.Pick(150, 2000)
 	}
 	lats := []time.Duration{0, vMs, 2 * vMs, 5 * vMs}
+	// transmit latencies from 1 ms to several seconds: a stop must wait for a
+	// transmission in flight however slow the socket is
+	slow := []time.Duration{vMs, 5 * vMs, 499 * vMs, 501 * vMs, 800 * vMs, 2 * time.Second, 7 * time.Second}
 	for i := 0; i < n; i++ {
 		c := &advCase{ID: fmt.Sprintf("stop/%d", i), Fwd: true, Terminate: i%2 == 0, Seed: time.Duration(rr.Int63n(1e9)), Min: 20 * time.Second, Max: 30 * time.Second}
 		c.UnicastOnly = rr.Intn(8) == 0
@@ -164,6 +167,12 @@ func TestVerifC08(t *testing.T) {
 			}
 		case 2: // transmission in flight: stop inside the State read or the socket write of a worker
 			c.FwdLat, c.WriteLat = lats[1+rr.Intn(3)], lats[1+rr.Intn(3)]
+			if rr.Intn(2) == 0 {
+				c.WriteLat = slow[rr.Intn(len(slow))]
+			}
+			if rr.Intn(4) == 0 {
+				c.FwdLat = slow[rr.Intn(len(slow))]
+			}
 			c.Steps = append(c.Steps, advStep{At: t0, Kind: "rs", Src: vSrc(rr.Intn(2), i)})
 			if rr.Intn(3) == 0 {
 				c.Steps = append(c.Steps, advStep{At: t0, Kind: "rs", Src: vSrc(1, i+1)})
@@ -178,6 +187,9 @@ func TestVerifC08(t *testing.T) {
 			c.StopAt = t0 + 2*time.Second
 		case 3: // periodic transmission in flight at the 16 s tick
 			c.FwdLat, c.WriteLat = lats[1+rr.Intn(3)], lats[1+rr.Intn(3)]
+			if rr.Intn(2) == 0 {
+				c.WriteLat = slow[rr.Intn(len(slow))]
+			}
 			c.StopAt = 16*time.Second + time.Duration(rr.Int63n(int64(c.FwdLat+c.WriteLat)+1))
 			if c.UnicastOnly {
 				c.StopAt = t0
@@ -359,8 +371,8 @@ func TestVerifC09(t *testing.T) {
 			}
 			switch x := rr.Intn(10); {
 			case x < 5:
+				// dropped inside the receive loop: does not reset the time-out budget
 				c.Steps = append(c.Steps, advStep{At: at, Kind: "msg", Msg: types[rr.Intn(4)], Src: fmt.Sprintf("fe80::bad:%x", k+1), Hop: []int{-1, 1, 64, 128, 254}[rr.Intn(5)]})
-				timeouts = 0
 			case x < 6:
 				c.Steps = append(c.Steps, advStep{At: at, Kind: "msg", Msg: []string{"ns", "na"}[rr.Intn(2)], Src: fmt.Sprintf("fe80::bad:%x", k+1)})
 				timeouts = 0
